@@ -23,7 +23,9 @@ RULE = ('a case = a generated host program (1-3 modules + optionally a second di
         'string: source not available, a fifth of the programs) next to ordinary ones, method tracepoints (method_name) on functions that exist in several files, on the '
         'generator and on the method; kinds snapshot / snapshot+log / log / metric / span line / span method; '
         'fire_count=-1 fire_period=0; a quarter of the single-effect tracepoints have a scripted condition '
-        '(arbitrary allow/deny per hit). Non-trivial = at least one effect produced and at least one tracepoint '
+        '(arbitrary allow/deny per hit); every 8th case is a lifecycle case: real TriggerHandler.start() / new_config / '
+        'shutdown(), threads started while the installed list is empty and run after tracepoints are configured. '
+        'Non-trivial = at least one effect produced and at least one tracepoint '
         'never reached. Distinct = distinct canonical JSON.')
 TRUSTED = ['CPython 3.12 trace-event discipline (checked against the recorded reference stream on every run: the '
            'model and the oracle consume the recorded stream, not an assumed one)',
@@ -124,7 +126,19 @@ def gen_tps(rng, prog, entries, nosource=()):
         elif r < 0.63:
             add(path, rng.choice(info['dead'] + [info['nlines'] + 5, 2]))
         elif r < 0.70:
-            add(rng.choice(['zz.py', 'M0.py', m + '.pyc']), rng.choice(info['stmt']))
+            # another file — among them names of which an executing file's name is a proper suffix ('subm0.py' vs
+            # 'm0.py') or which are a proper suffix of it ('0.py'), on executed lines / called functions
+            other = rng.choice(['zz.py', 'M0.py', m + '.pyc', 'sub' + m + '.py', 'sub' + m + '.py', m[1:] + '.py',
+                                'test_' + m + '.py'])
+            pick = rng.random()
+            here_l = [l for f, l in ex_lines if f == path]
+            here_c = [fn for f, fn in ex_calls if f == path]
+            if pick < 0.5 and here_l:
+                add(other, rng.choice(here_l))
+            elif pick < 0.8 and here_c:
+                add(other, 0, method=rng.choice(here_c))
+            else:
+                add(other, rng.choice(info['stmt']))
         elif r < 0.90:
             f = rng.choice(sorted(info['def']))
             if ex_calls and rng.random() < 0.6:
@@ -168,9 +182,29 @@ def gen_case(rng, tier, threads=None):
     return case
 
 
+def gen_lifecycle(rng, tier):
+    """the real installation (TriggerHandler.start / new_config / shutdown) with threads started while the installed
+    tracepoint list is empty: 'every thread started after installation'."""
+    n = rng.randint(2, 4)
+    prog = th.gen_program(rng, nmods=rng.randint(1, 2), nfuncs=rng.randint(3, 4))
+    mods = [m for m in prog['meta']['mods'] if m != 'm0x']
+    entries = [[rng.choice(mods), 'f0', rng.randint(0, 3)] for _ in range(n)]
+    tps = [tp for tp in gen_tps(rng, prog, entries) if not tp.get('scripted')]
+    ids = [tp['id'] for tp in tps]
+    second = [i for i in ids if rng.random() < 0.8] or ids[:1]
+    first = None if rng.random() < 0.3 else ([i for i in ids if rng.random() < 0.6] or ids[:1])
+    return {'kind': 'prog', 'mode': 'threads', 'files': prog['files'], 'entries': entries, 'tps': tps, 'scripts': {},
+            'sched': [], 'model_seed': rng.randrange(10 ** 6), 'lifecycle': {'first': first, 'second': second}}
+
+
 def gen(rng, tier):
+    k = 0
     while True:
-        yield gen_case(rng, tier)
+        k += 1
+        if k % 8 == 0:
+            yield gen_lifecycle(rng, tier)
+        else:
+            yield gen_case(rng, tier)
 
 
 def corpus():
@@ -227,6 +261,30 @@ def corpus():
          'tps': [{'id': 'tp0', 'path': 'm0.py', 'line': 8, 'args': dict(u, snapshot='no_collect', log_msg='lam'),
                   'metrics': [], 'via': 'resp'},
                  {'id': 'tp1', 'path': 'm1.py', 'line': 5, 'args': u, 'metrics': [], 'via': 'custom'}]},
+        # file names that end with the name of the executing file ('subm0.py' is configured, 'm0.py' runs) and the other
+        # way round, same line numbers and function names: only an exact file name is "a source file with that name"
+        {'kind': 'prog', 'mode': 'sys', 'files': {'m0.py': src, 'subm0.py': src}, 'entries': [['m0', 'g', 1]],
+         'scripts': {}, 'sched': [], 'model_seed': 6,
+         'tps': [{'id': 'tp0', 'path': 'subm0.py', 'line': 2, 'args': u, 'metrics': [], 'via': 'resp'},
+                 {'id': 'tp1', 'path': 'subm0.py', 'line': 0, 'args': dict(u, method_name='f', snapshot='no_collect',
+                                                                        log_msg='in f'), 'metrics': [], 'via': 'custom'},
+                 {'id': 'tp2', 'path': '0.py', 'line': 2, 'args': dict(u, snapshot='no_collect', log_msg='x'),
+                  'metrics': [], 'via': 'resp'},
+                 {'id': 'tp3', 'path': 'm0.py', 'line': 8, 'args': u, 'metrics': [], 'via': 'resp'}]},
+        {'kind': 'prog', 'mode': 'sys', 'files': {'m0.py': src, 'subm0.py': src}, 'entries': [['subm0', 'g', 1]],
+         'scripts': {}, 'sched': [], 'model_seed': 7,
+         'tps': [{'id': 'tp0', 'path': 'm0.py', 'line': 2, 'args': u, 'metrics': [], 'via': 'resp'},
+                 {'id': 'tp1', 'path': 'subm0.py', 'line': 8, 'args': u, 'metrics': [], 'via': 'resp'}]},
+        # installed with handler.start(); T0 runs under the tracepoint; the list becomes empty; T1 is started in that
+        # window; the tracepoint is configured again; T1 runs; T2 is started and runs; handler.shutdown()
+        {'kind': 'prog', 'mode': 'threads', 'files': {'m0.py': src}, 'entries': [['m0', 'g', 1]] * 3, 'scripts': {},
+         'sched': [], 'model_seed': 8, 'lifecycle': {'first': ['tp0'], 'second': ['tp0', 'tp1']},
+         'tps': [{'id': 'tp0', 'path': 'm0.py', 'line': 2, 'args': u, 'metrics': [], 'via': 'resp'},
+                 {'id': 'tp1', 'path': 'm0.py', 'line': 0, 'args': dict(u, method_name='f', snapshot='no_collect',
+                                                                     log_msg='in f'), 'metrics': [], 'via': 'custom'}]},
+        {'kind': 'prog', 'mode': 'threads', 'files': {'m0.py': src}, 'entries': [['m0', 'g', 1]] * 2, 'scripts': {},
+         'sched': [], 'model_seed': 9, 'lifecycle': {'first': None, 'second': ['tp0']},
+         'tps': [{'id': 'tp0', 'path': 'm0.py', 'line': 8, 'args': u, 'metrics': [], 'via': 'custom'}]},
         # no tracepoint at all; and only never-reached ones
         {'kind': 'prog', 'mode': 'sys', 'files': {'m0.py': src}, 'entries': [['m0', 'g', 1]], 'scripts': {},
          'sched': [], 'model_seed': 2, 'tps': []},
@@ -264,10 +322,13 @@ def oracle(case, obs):
         v.append('the host program behaved differently under the agent: %s' % obs['host'])
     if not obs['trace_kept']:
         v.append('the trace function was removed during the run')
+    if obs.get('hook_restored') is False:
+        v.append('threading trace hook not restored after shutdown')
     for t in threads_of(case):
         events = host_events(obs, t)
         observed = [o for o in obs['effects'].get(t, []) if o['kind'] in FIRED]
-        groups, _ = th.reference(case['tps'], events, case.get('scripts', {}).get(t, {}))
+        tps = th.lifecycle_tps(case, t) if case.get('lifecycle') else case['tps']
+        groups, _ = th.reference(tps, events, case.get('scripts', {}).get(t, {}))
         vv, paired = th.align(groups, observed, events, what='the statement')
         v += ['thread %s: %s' % (t, x) for x in vv]
         # every tracepoint of a line collects the same frame: the locals of the event's frame
@@ -289,6 +350,10 @@ def oracle(case, obs):
 
 
 def model_request(case, obs):
+    if 'raised' in obs:
+        return None
+    if case.get('lifecycle'):
+        return th.lifecycle_requests(case, obs)
     return th.run_request(case, obs)
 
 
@@ -313,6 +378,17 @@ def compare(case, obs, resp):
     if 'error' in resp:
         return ['model error: ' + resp['error']]
     d = []
+    if case.get('lifecycle'):
+        for k, t in enumerate(threads_of(case)):
+            r = resp['resps'][k]
+            if 'error' in r:
+                d.append('model error: ' + r['error'])
+                continue
+            events = host_events(obs, t)
+            observed = [o for o in obs['effects'].get(t, []) if o['kind'] in FIRED]
+            vv, _ = th.align(model_groups(case, r['threads'][0]['effects']), observed, events, what='the model')
+            d += ['thread %s: %s' % (t, x) for x in vv]
+        return d
     if not resp.get('global_agrees'):
         d.append('model: the interleaved machine disagrees with the per-thread runs')
     if resp.get('triggers') != obs.get('triggers'):
@@ -330,7 +406,8 @@ def label(case, obs):
     if 'raised' in obs:
         return 'raised'
     n = sum(len([o for o in e if o['kind'] in FIRED]) for e in obs['effects'].values())
-    return '%s%s/%dthr/%s' % (case['mode'], '/nosource' if case.get('nosource') else '', len(case['entries']),
+    return '%s%s/%dthr/%s' % ('lifecycle' if case.get('lifecycle') else case['mode'],
+                              '/nosource' if case.get('nosource') else '', len(case['entries']),
                               'none' if n == 0 else 'few' if n < 6 else 'many')
 
 
@@ -355,7 +432,7 @@ def shrink(case):
         c = dict(case)
         c['tps'] = tps[:i] + tps[i + 1:]
         yield c
-    if len(case['entries']) > 1:
+    if len(case['entries']) > 1 and not case.get('lifecycle'):
         for i in range(len(case['entries'])):
             c = dict(case)
             c['entries'] = case['entries'][:i] + case['entries'][i + 1:]
